@@ -1,6 +1,7 @@
 """C11 — command substitution splices the command's output in literally, exactly once.
 
-Output texts = all sequences of up to 2 atoms over {x blank $1 ${x} $A backslash newline * {a,b} ) ( .+} (157 texts) and
+Output texts = all sequences of up to 2 atoms over {x blank $1 ${x} $A backslash newline * {a,b} ) ( .+ `cmd` $(cmd)} (211 texts;
+a substitution in the OUTPUT must not be run) and
 trailing-newline variants, produced by the helper vh-emit (which records every run), substituted with $(...) and
 backquotes, as whole word / at word start / middle / end, unquoted and double-quoted, as the right-hand side of an
 assignment and as here-string operand; inner commands: external, pipeline, builtin, failing, not found, syntactically
@@ -14,7 +15,7 @@ import os
 
 from .. import common
 
-ATOMS = ['x', ' ', '$1', '${x}', '$A', '\\', '\n', '*', '{a,b}', ')', '(', '.+']
+ATOMS = ['x', ' ', '$1', '${x}', '$A', '\\', '\n', '*', '{a,b}', ')', '(', '.+', '`vh-mark RAN 0`', '$(vh-mark RAN 0)']
 
 
 def texts():
@@ -138,6 +139,18 @@ def special_cases():
     S.append(('invalid-inside-backquote', 'vh-argv "h`vh-emit a >`t"', {'a': b'zz\n'}, [['ht']], 0))
     S.append(('sees-variables', 'B=zz ; vh-argv "$(vh-emit $B)"', {'zz': b'v\n'}, [['v']], 1))
     S.append(('nested', 'vh-argv "$(vh-emit $(vh-emit a))"', {'a': b'b\n', 'b': b'inner\n'}, [['inner']], 2))
+    # pattern / substitution characters WRITTEN inside the inner command (quoted there) belong to the inner command
+    S.append(('star-written-inside-assignment', 'V=$(printf \'%s\' \'x *\') ; vh-argv "$V"', {}, [['x *']], 0))
+    S.append(('star-written-inside-assignment-backquote', 'V=`printf \'%s\' \'x *\'` ; vh-argv "$V"', {}, [['x *']], 0))
+    S.append(('star-written-inside-unquoted', 'vh-argv $(printf \'%s\' \'x *\')', {}, [['x *'], ['x', '*']], 0))
+    S.append(('backquotes-written-inside-single-quotes', 'vh-argv "$(printf \'%s\' \'`vh-mark RAN 0`\')"', {}, [['`vh-mark RAN 0`']], 0))
+    S.append(('dollar-paren-written-inside-single-quotes', 'vh-argv "`printf \'%s\' \'$(vh-mark RAN 0)\'`"', {}, [['$(vh-mark RAN 0)']], 0))
+    S.append(('backquotes-inside-dollar', 'vh-argv "$(vh-emit `vh-emit a`)"', {'a': b'b\n', 'b': b'inner\n'}, [['inner']], 2))
+    S.append(('dollar-inside-backquotes', 'vh-argv "`vh-emit $(vh-emit a)`"', {'a': b'b\n', 'b': b'inner\n'}, [['inner']], 2))
+    S.append(('three-in-word-mixed', 'vh-argv a`vh-emit a`b$(vh-emit b)c`vh-emit a`', {'a': b'1\n', 'b': b'$(vh-mark RAN 0)\n'}, [['a1b$(vh-mark RAN 0)c1']], 3))
+    # the shell's own state: a builtin inside a substitution must not act on the shell that expands the word
+    S.append(('cd-inside', 'vh-argv "$(cd /)" ; vh-mark CWD 0', {}, [['']], 0))
+    S.append(('exit-inside', 'vh-argv "h$(exit 3)t" ; vh-mark CWD 0', {}, [['ht']], 0))
     S.append(('state-unchanged', 'C=1 ; vh-argv "$(vh-emit a)" ; vh-argv2 "$C" $?', {'a': b'o\n'}, [['o']], 1))
     return S
 
@@ -161,7 +174,8 @@ def run_case(c):
         stdin = [x.get('stdin') for x in r.records if x.get('k') == 'argv' and x.get('name') == 'vh-argv']
         argv2 = [x['argv'] for x in r.records if x.get('k') == 'argv' and x.get('name') == 'vh-argv2']
         emits = len([x for x in r.records if x.get('k') == 'emit'])
-        return {'timed_out': r.timed_out, 'argv': argv, 'argv2': argv2, 'emits': emits, 'status': r.status, 'stdin': stdin,
+        marks = [(x['argv'], x.get('cwd', '').replace(w, 'W')) for x in r.records if x.get('k') == 'mark']
+        return {'marks': marks, 'timed_out': r.timed_out, 'argv': argv, 'argv2': argv2, 'emits': emits, 'status': r.status, 'stdin': stdin,
                 'err': r.err.decode('utf-8', 'replace')[-300:], 'new_files': sorted(os.listdir(w))}
     finally:
         common.drop_case_dir(d)
@@ -169,6 +183,10 @@ def run_case(c):
 
 def atom_class(text):
     cls = []
+    for sub in ('`vh-mark RAN 0`', '$(vh-mark RAN 0)'):
+        if sub in text:
+            cls.append('backquotes' if sub[0] == '`' else 'dollar-paren')
+            text = text.replace(sub, '')
     for a, n in (('$1', 'dollar-digit'), ('${x}', 'dollar-brace'), ('$A', 'dollar-name'), ('\\', 'backslash'), ('\n', 'newline'), ('*', 'star'),
                  ('{a,b}', 'braces'), (')', 'rparen'), ('(', 'lparen'), ('.+', 'regex'), (' ', 'blank')):
         if a in text:
@@ -209,6 +227,8 @@ def run(rep, tier):
             dev = 'argv'
         elif o['emits'] != c['emits']:
             dev = 'substitution-ran-%d-times' % o['emits']
+        elif o['marks']:
+            dev = 'output-run-as-command'
         if dev is None:
             rep.outcome('ok:%s:%s' % (c['spelling'], c['ctx']))
             rep.traces_validated += 1
@@ -233,6 +253,8 @@ def run(rep, tier):
         dev = None
         if o['timed_out']:
             dev = 'hang'
+        elif name in ('cd-inside', 'exit-inside') and [m[1] for m in o['marks']] != ['W']:
+            dev = 'shell-state-changed'     # the command after the line did not run in the directory the shell was in
         elif len(o['argv']) != 1 or o['argv'][0] not in alts:
             dev = 'argv'
         elif o['emits'] != emits:
@@ -241,13 +263,15 @@ def run(rep, tier):
             dev = 'no-diagnostic'
         elif name == 'state-unchanged' and o['argv2'] != [['1', '0']]:
             dev = 'shell-state-changed'
+        elif name not in ('cd-inside', 'exit-inside') and o['marks']:
+            dev = 'output-run-as-command'
         if dev is None:
             rep.outcome('ok:special')
             rep.traces_validated += 1
         else:
             rep.outcome('deviation:' + dev)
             rep.violation('%s:%s' % (dev, name), {'line': line, 'files': {k: v.decode() for k, v in files.items()}}, {'argv': alts, 'inner_runs': emits},
-                          {k: o[k] for k in ('argv', 'argv2', 'emits', 'err')}, repro='cicada -c %s' % common.shquote(line))
+                          {k: o[k] for k in ('argv', 'argv2', 'emits', 'marks', 'err')}, repro='cicada -c %s' % common.shquote(line))
     rep.bounds.append({'layer': 'real binary -c', 'cases': len(cases) + len(sp), 'complete': True})
     rep.sample({'line': cases[n_main // 2]['line'], 'output_of_inner_command': cases[n_main // 2]['text']})
     rep.bounds.append({'layer': 'substituted word next to other words (8 kinds before x 6 after x spelling x quoting x placement x 3 outputs)', 'cases': len(cases) - n_main, 'complete': True})
